@@ -22,6 +22,17 @@ CHECKS = {
              "alphabets and histories beyond depth 3 are not covered."),
 }
 
+CHECKS["C05"] = dict(
+    engine="E1", section="4/C05",
+    text="BFS (depth 2-3) over histories of search-range updates, frequency-domain rejections, manual rejections and "
+         "real maximum-value rejections coupled through hvsr= on real HvsrTraditional objects built from products of "
+         "curve shapes; in every reachable state with >= 2 accepted windows every statistic accessor (both "
+         "distributions and the 'log-normal' alias) is compared with math.fsum textbook estimators over exactly the "
+         "accepted rows, with a fresh object built from the accepted windows alone, with the reciprocal (period) "
+         "object and with the +n/-n symmetry.",
+    note="Per-window peaks are taken from fresh HvsrCurve objects (judged by C08); curve sets outside the shape "
+         "alphabet, more than 5 windows and histories beyond depth 3 are not covered.")
+
 NOT_APPLICABLE = []
 
 PENDING = ["C01", "C02", "C03", "C04", "C05", "C06", "C07", "C09", "C10", "C11", "C12", "C13",
